@@ -1,7 +1,7 @@
 import Secp.Proofs.WrapperTiesN
 import Secp.Proofs.Lawful
-import Secp.Proofs.ReduceN
 import Secp.Proofs.AddSubN
+import Secp.Proofs.ToMontN
 import Secp.Proofs.Bits64N
 import Secp.Proofs.FieldP
 import Secp.Hand.Field
